@@ -132,8 +132,8 @@ def quantifier(ev: Ev, which: str, g: ast.GeneratorExp | ast.ListComp) -> Val:
 	gen = g.generators[0]
 	if len(g.generators) != 1 or not isinstance(gen.target, ast.Name):
 		raise EngineError('quantifier: single name generator only')
-	if ev.mode != 'spec':
-		# in code: evaluate as a fold over the materialised list
+	if ev.mode != 'spec' and not getattr(ev.fn, 'lemma_name', None):
+		# in code: evaluate as a fold over the materialised list (a lemma body is specification text: quantifiers stay quantifiers)
 		lst = ev.comprehension(g.elt, g.generators)
 		if lst.items is not None:
 			ts = [ev.truthy(v) if c is None else (z3.Implies(c, ev.truthy(v)) if which == 'all' else z3.And(c, ev.truthy(v))) for c, v in lst.items]
@@ -172,6 +172,7 @@ def quantifier(ev: Ev, which: str, g: ast.GeneratorExp | ast.ListComp) -> Val:
 		else:
 			raise EngineError(f'quantifier over {seq.ty}')
 	sub = Ev(ev.eng, ev.fn, State(env, ev.st.pc), ev.oracle, 'spec', ev.old, list(ev.guards) + [rng], ev.prev)
+	sub.bound = list(getattr(ev, 'bound', [])) + [q]  # type: ignore[attr-defined]  (a lemma used under the quantifier is used for every value of the bound variable)
 	conds = [sub.truth(c) for c in gen.ifs]
 	body = sub.truth(g.elt)
 	if which == 'all':
@@ -744,6 +745,9 @@ def call_spec(ev: Ev, name: str, args: list[Val]) -> Val:
 			ev.eng.rec_gen[key] = gen + 1
 			raise
 		z3.RecAddDefinition(f, consts, body.term)
+		from .smt import HEAVY_FUNCS, _is_light
+		if not _is_light(body.term):
+			HEAVY_FUNCS.add(f.name())  # a recursive definition with quantifiers inside: the in-process feasibility probe must not unfold it
 	f = ev.eng.rec_funcs[key]
 	return Val(rty, f(*[a.term for a in args]))
 
@@ -829,9 +833,12 @@ def call_lemma(ev: Ev, name: str, args: list[Val]) -> Val:
 		m_old = ev.fn.lemma_measure  # type: ignore[attr-defined]
 		vt = z3.And(m_new >= 0, m_new < m_old)
 		ev.eng.oblige(ev.fn, f'lemma-variant:{name}', ev.st, z3.Implies(g, vt) if g is not None else vt, lm.decreases)
+	bound = list(getattr(ev, 'bound', []))
 	for e in lm.ensures:
 		t = sub.truth(ast.parse(e, mode='eval').body)
-		ev.st.assume(z3.Implies(g, t) if g is not None else t)
+		fact = z3.Implies(g, t) if g is not None else t
+		# under `all(lemma(...) for i in ...)` the precondition was obliged for an arbitrary value of the bound variable, so the conclusion holds for all of them
+		ev.st.assume(z3.ForAll(bound, fact) if bound else fact)
 	return ev.lift(True)
 
 
